@@ -147,6 +147,15 @@ func EthGenesis() GenesisSpec {
 	return gs
 }
 
+// EthGenesis5: five witnesses (threshold 4 of 5), a witness count that is not of the form 3f+1.
+func EthGenesis5() GenesisSpec {
+	gs := EthGenesis()
+	gs.Validators = append(gs.Validators, GenValidator{"v5", 3})
+	gs.Witnesses = []string{"v1", "v2", "v3", "v4", "v5"}
+	gs.Staking.Top = 5
+	return gs
+}
+
 type Genesis struct {
 	Spec       GenesisSpec
 	Doc        *config.GenesisDoc
